@@ -30,6 +30,8 @@ def goIdx (i : Int) : Option Nat := if 0 ≤ i then some i.toNat else none
 def goIndex (s : Slice) (i : Nat) : Option U8 := s[i]?
 /-- s[i] = v -/
 def goAssign (s : Slice) (i : Nat) (v : U8) : Option Slice := if i < s.length then some (s.set i v) else none
+/-- make([]uint8, n): n zero bytes; a negative length panics -/
+def goMake (n : Int) : Option Slice := if 0 ≤ n then some (List.replicate n.toNat 0#8) else none
 /-- copy(s[lo:hi], src): the slice expression panics unless 0 ≤ lo ≤ hi ≤ cap(s); copy moves min(hi-lo, len src) bytes -/
 def goCopy (s : Slice) (lo hi : Int) (src : List U8) : Option Slice :=
   if 0 ≤ lo ∧ lo ≤ hi ∧ hi ≤ (s.length : Int) then
